@@ -171,6 +171,17 @@ func edgeExcludes(cond ssa.Value, val bool, key ssa.Value, param *ssa.Parameter)
 		if x.Op == token.NOT {
 			return edgeExcludes(x.X, !val, key, param)
 		}
+	case *ssa.Call:
+		// a predicate helper handed the type name: isOneByte(typ)
+		if h := x.Call.StaticCallee(); h != nil && h.Blocks != nil && h.Signature.Results().Len() == 1 {
+			if bt, ok := h.Signature.Results().At(0).Type().Underlying().(*types.Basic); ok && bt.Kind() == types.Bool {
+				for i, a := range x.Call.Args {
+					if sameCarrier(a, key, param) {
+						return predicateExcludes(h, i, val, 0)
+					}
+				}
+			}
+		}
 	case *ssa.BinOp:
 		for i, pair := range [][2]ssa.Value{{x.X, x.Y}, {x.Y, x.X}} {
 			k, isK := pair[1].(*ssa.Const)
@@ -215,6 +226,68 @@ func edgeExcludes(cond ssa.Value, val bool, key ssa.Value, param *ssa.Parameter)
 		}
 	}
 	return 0
+}
+
+// predicateExcludes: h is a bool function handed the type name as parameter pidx; which one-byte names are excluded when it
+// returns val?
+func predicateExcludes(h *ssa.Function, pidx int, val bool, depth int) int {
+	if h == nil || h.Blocks == nil || pidx >= len(h.Params) || depth > 3 {
+		return 0
+	}
+	param := h.Params[pidx]
+	must := mustFacts(h, oneByteAll, func(b *ssa.BasicBlock, succ int) int {
+		cond := branchCond(b)
+		if cond == nil {
+			return 0
+		}
+		return edgeExcludes(cond, succ == 0, nil, param)
+	})
+	var eval func(v ssa.Value, at *ssa.BasicBlock, d int) (int, bool) // (excluded, feasible)
+	eval = func(v ssa.Value, at *ssa.BasicBlock, d int) (int, bool) {
+		if d > 6 {
+			return 0, true
+		}
+		switch x := v.(type) {
+		case *ssa.Const:
+			if x.Value == nil || x.Value.Kind() != constant.Bool {
+				return 0, true
+			}
+			if constant.BoolVal(x.Value) != val {
+				return 0, false
+			}
+			return must[at.Index], true
+		case *ssa.Phi:
+			acc, any := oneByteAll, false
+			for i, e := range x.Edges {
+				ex, feasible := eval(e, x.Block().Preds[i], d+1)
+				if !feasible {
+					continue
+				}
+				any = true
+				acc &= ex
+			}
+			return acc, any
+		default:
+			return must[at.Index] | edgeExcludes(v, val, nil, param), true
+		}
+	}
+	acc, any := oneByteAll, false
+	for _, b := range h.Blocks {
+		ret, ok := b.Instrs[len(b.Instrs)-1].(*ssa.Return)
+		if !ok || len(ret.Results) != 1 {
+			continue
+		}
+		ex, feasible := eval(ret.Results[0], b, 0)
+		if !feasible {
+			continue
+		}
+		any = true
+		acc &= ex
+	}
+	if !any {
+		return 0
+	}
+	return acc
 }
 
 // sizeOfCarrier: v is table[<carrier>].Size for some table.
@@ -1332,11 +1405,28 @@ func dependenciesFirstOrder(w *World, g *ssa.Function) bool {
 	if g == nil || g.Blocks == nil {
 		return false
 	}
-	cluster := append([]*ssa.Function{g}, g.AnonFuncs...)
+	// the walk: g, its closures and the parser-package functions they call (a walker record with methods)
+	var cluster []*ssa.Function
 	inCluster := map[*ssa.Function]bool{}
-	for _, f := range cluster {
+	var addFn func(f *ssa.Function, depth int)
+	addFn = func(f *ssa.Function, depth int) {
+		if f == nil || inCluster[f] || f.Blocks == nil || depth > 3 {
+			return
+		}
 		inCluster[f] = true
+		cluster = append(cluster, f)
+		for _, a := range f.AnonFuncs {
+			addFn(a, depth+1)
+		}
+		forEachInstr(f, func(_ *ssa.BasicBlock, ins ssa.Instruction) {
+			if c, ok := ins.(ssa.CallInstruction); ok {
+				if t := calleeOf(c); t != nil && t.Pkg == w.Parser && roleOf(t) == "" {
+					addFn(t, depth+1)
+				}
+			}
+		})
 	}
+	addFn(g, 0)
 	viaObject, viaMatch, postOrder, visitedSet := false, false, false, false
 	for _, fn := range cluster {
 		var descents, appends []ssa.Instruction
@@ -1364,11 +1454,15 @@ func dependenciesFirstOrder(w *World, g *ssa.Function) bool {
 							}
 						}
 					}
-					if lk, ok := a.(*ssa.Lookup); ok && mapDesc(lk.X) == ".PacketsMap" && pairFieldOf(lk.Index) == "Value" {
+					isPacketTable := func(m ssa.Value) bool {
+						mt, ok := m.Type().Underlying().(*types.Map)
+						return ok && typeIs(mt.Elem(), modPath+"/internal/model", "Packet")
+					}
+					if lk, ok := a.(*ssa.Lookup); ok && isPacketTable(lk.X) && pairFieldOf(lk.Index) == "Value" {
 						viaMatch = true
 					}
 					if ex, ok := a.(*ssa.Extract); ok {
-						if lk, ok := ex.Tuple.(*ssa.Lookup); ok && mapDesc(lk.X) == ".PacketsMap" && pairFieldOf(lk.Index) == "Value" {
+						if lk, ok := ex.Tuple.(*ssa.Lookup); ok && isPacketTable(lk.X) && pairFieldOf(lk.Index) == "Value" {
 							viaMatch = true
 						}
 					}
